@@ -297,7 +297,9 @@ spif_dlinked_list_item_dup(spif_dlinked_list_item_t self)
 
     ASSERT_RVAL(!SPIF_DLINKED_LIST_ITEM_ISNULL(self), (spif_dlinked_list_item_t) NULL);
     tmp = spif_dlinked_list_item_new();
-    tmp->data = SPIF_OBJ_DUP(self->data);
+    if (!SPIF_OBJ_ISNULL(self->data)) {
+        tmp->data = SPIF_OBJ_DUP(self->data);
+    }
     return tmp;
 }
 
